@@ -266,7 +266,8 @@ impl RefTp {
 
 pub fn env_lines(env: Env) -> Vec<String> {
     let mut v = vec![format!("Mode: {}", env.mode as i32)];
-    if env.default_bank != SampleBank::None {
+    // "no SampleSet record" and an explicit "SampleSet: None" are the same default; the latter is written in two modes
+    if env.default_bank != SampleBank::None || matches!(env.mode, GameMode::Taiko | GameMode::Catch) {
         v.push(format!("SampleSet: {}", match env.default_bank {
             SampleBank::Normal => "Normal",
             SampleBank::Soft => "Soft",
